@@ -3,4 +3,4 @@ From FEC Require Import Models.TimeRangeM.
 Extraction Language OCaml.
 Set Extraction Output Directory ".".
 Extraction "c13_x.ml" current legacy init_gen restart is_in_range_gen run_gen make_absolute_gen intersect_gen
-  parse_gen parse_tuple_gen pyfloat spec_run describe describe_text nondecr first_timed origins_agree.
+  parse_gen parse_tuple_gen parse_obj pyfloat spec_run describe describe_text nondecr first_timed origins_agree.
